@@ -369,8 +369,12 @@ func checkEnvelope(data []byte, expectedType msgType) ([]byte, error) {
 		return nil, fmt.Errorf("unknown envelope protocol: %v", data[4])
 	}
 
+	headerLen := int(data[5])
+	if headerLen > len(data) {
+		return nil, errors.New("envelope header length exceeds data")
+	}
+
 	var (
-		headerLen  = int(data[5])
 		flags      = data[6]
 		actualType = msgType(data[7])
 		payload    = data[headerLen:]
